@@ -255,10 +255,10 @@ impl Ck<'_, '_> {
         self.evals += 1;
         let fam = Defs::family(ty);
         // type name
-        let shown = strip_paths(&value_tyname(v));
-        let want = self.defs.name(ty);
+        let shown = strip_paths(&value_tyname(v)).replace(", Global", "");
+        let want = self.defs.name(ty).replace(", Global", "");
         if shown != want {
-            let key = if matches!(ty, Ty::Array(..)) && shown == format!("[{}]", self.defs.name(match ty { Ty::Array(e, _) => e, _ => unreachable!() })) { "array-type-name-lacks-length".to_string() }
+            let key = if matches!(ty, Ty::Array(..)) && shown == format!("[{}]", self.defs.name(match ty { Ty::Array(e, _) => e, _ => unreachable!() }).replace(", Global", "")) { "array-type-name-lacks-length".to_string() }
                       else { format!("type-name-{fam}") };
             self.fail(&key, format!("{path}: type shown as `{}` (paths stripped: `{shown}`), the Rust type is `{want}`", value_tyname(v)));
         }
@@ -301,13 +301,19 @@ impl Ck<'_, '_> {
                 match (cur, &ts[0].1) { (Value::Scalar(s), T::Num(text)) if s.value.as_ref().map(|x| x.to_string()).as_deref() == Some(text) => {}
                     _ => self.fail("nonzero-value", format!("{path}: shown as {}, the program holds {:?}", kind_of(cur), ts[0].1)) }
             }
-            (Ty::CEnum(_), T::CVariant(name)) => { let Value::CEnum(c) = v else { wrong_kind!() };
-                if c.value.as_deref() != Some(name) { self.fail("cenum-variant", format!("{path}: shown {:?}, the program holds {name}", c.value)); } }
+            (Ty::CEnum(i), T::CVariant(name)) => { let Value::CEnum(c) = v else { wrong_kind!() };
+                if c.value.as_deref() != Some(name) {
+                    let big = self.defs.cenums[*i].variants.iter().any(|x| x.0 == *name && x.1 > i64::MAX as i128);
+                    let key = if big && c.value.is_none() { "cenum-discriminant-above-i64-max-not-shown" } else { "cenum-variant" };
+                    self.fail(key, format!("{path}: shown {:?}, the program holds {name}", c.value)); } }
             (Ty::Enum(_) | Ty::Opt(_), T::Variant(name, ts)) => {
                 let Value::RustEnum(e) = v else { wrong_kind!() };
                 let Some(m) = &e.value else {
                     // the tag of Option<u128>/Option<i128> (and of enums whose largest payload is 128-bit aligned) is a 128-bit integer
-                    let wide = match ty { Ty::Opt(inner) => matches!(**inner, Ty::Int("u128") | Ty::Int("i128")), _ => false };
+                    let wide = e.type_id.and_then(|t| self.pcx.type_graph.types.get(&t)).map(|d| match d {
+                        TypeDeclaration::RustEnum { discr_type: Some(m), .. } => m.type_ref.and_then(|t| self.pcx.type_graph.types.get(&t))
+                            .map(|d| matches!(d, TypeDeclaration::Scalar(s) if s.byte_size == Some(16))).unwrap_or(false),
+                        _ => false }).unwrap_or(false);
                     let topbit = match ty { Ty::Enum(i) => self.defs.enums[*i].variants.iter().any(|x| x.0 == *name && matches!(x.2, Some(d) if d >= 128)), _ => false };
                     let key = if wide { "enum-with-128-bit-discriminant-shows-no-variant".to_string() }
                               else if topbit { "enum-unsigned-discriminant-with-top-bit-set-shows-no-variant".to_string() } else { format!("{fam}-no-variant") };
@@ -478,6 +484,9 @@ impl Worker<'_> {
         }
     }
 
+    fn at_range_end(&self, name: &str) -> bool {
+        self.loclists.get(name).map(|rs| !rs.iter().any(|(a, b)| *a <= self.pc && self.pc < *b) && rs.iter().any(|(_, b)| *b == self.pc)).unwrap_or(false)
+    }
     fn handle(&mut self, qr: &QueryResult, var: &Var, defs: &Defs, what: &str) {
         self.stat(&format!("family:{}", var.family));
         if var.shape != "-" { self.stat(&format!("shape:{}:{}", var.family, var.shape)); }
@@ -491,6 +500,16 @@ impl Worker<'_> {
                         let key = enumerators.iter().find(|(_, m)| m.name.as_deref() == Some(vname)).map(|(k, _)| k.map(int_tok).unwrap_or("d".into())).unwrap_or("-".into());
                         self.k(format!("C06 discrkey 1 {d}"), key);
                     }
+                }
+            }
+        }
+        // K: the keys under which the type parser filed the enumerators of an unsigned C-like enum (DW_FORM_udata constants)
+        if let Ty::CEnum(i) = &var.ty {
+            let def = &defs.cenums[*i];
+            if matches!(def.repr, Some("u8") | Some("u16") | Some("u64")) && let Some(TypeDeclaration::CStyleEnum { enumerators, .. }) = qr.type_graph().types.get(&qr.type_graph().root()) {
+                for (vname, d) in &def.variants {
+                    let key = enumerators.iter().find(|(_, n)| *n == vname).map(|(k, _)| int_tok(*k)).unwrap_or("-".into());
+                    self.k(format!("C06 constkey {d}"), key);
                 }
             }
         }
@@ -521,7 +540,7 @@ impl Worker<'_> {
         (self.emit)(format!("!evals {evals}"));
         // the variable has a location LIST and the stop pc is the (exclusive) end of one of its ranges while no range covers it:
         // DWARF says "no location here"; whatever is shown comes from the stale entry
-        let at_range_end = self.loclists.get(&var.name).map(|rs| !rs.iter().any(|(a, b)| *a <= self.pc && self.pc < *b) && rs.iter().any(|(_, b)| *b == self.pc)).unwrap_or(false);
+        let at_range_end = self.at_range_end(&var.name);
         if at_range_end { self.stat("stop-at-exclusive-end-of-location-range"); }
         if let (Some(h), false) = (var.hint, fails.is_empty()) {
             self.oracle(h, &format!("{what} {}", fails[0].1), &var.name);
@@ -563,6 +582,7 @@ fn session(s: &Session, emit: &mut dyn FnMut(String)) {
         let locals = match dbg.read_local_variables() { Ok(v) => v, Err(e) => { w.oracle("read-local-variables-fails", &e.to_string(), ""); vec![] } };
         for var in &s.prog.locals {
             let found: Vec<&QueryResult> = locals.iter().filter(|q| q.identity().name.as_deref() == Some(&var.name)).collect();
+            if found.is_empty() && w.at_range_end(&var.name) { w.stat("not-shown-at-exclusive-end-of-location-range"); continue; }
             if found.len() != 1 { w.oracle(&format!("variable-shown-{}-times", found.len().min(2)), &format!("local {} of type {} is shown {} times", var.name, s.prog.defs.src(&var.ty), found.len()), &var.name); continue; }
             w.handle(found[0], var, &s.prog.defs, "local");
         }
@@ -584,6 +604,7 @@ fn session(s: &Session, emit: &mut dyn FnMut(String)) {
         let args = match dbg.read_argument(Dqe::Variable(Selector::Any)) { Ok(v) => v, Err(e) => { w.oracle("read-arguments-fails", &e.to_string(), ""); vec![] } };
         for var in &s.prog.args {
             let found: Vec<&QueryResult> = args.iter().filter(|q| q.identity().name.as_deref() == Some(&var.name)).collect();
+            if found.is_empty() && w.at_range_end(&var.name) { w.stat("not-shown-at-exclusive-end-of-location-range"); continue; }
             if found.len() != 1 { w.oracle(&format!("argument-shown-{}-times", found.len().min(2)), &format!("argument {} is shown {} times", var.name, found.len()), &var.name); continue; }
             w.handle(found[0], var, &s.prog.defs, "argument");
         }
@@ -669,6 +690,9 @@ pub fn run(args: &[String]) {
         println!("{}", p.source);
         for v in p.locals.iter().chain(&p.args).chain(&p.statics) { println!("// {} : {} = {:?}", v.name, p.defs.src(&v.ty), v.truth); }
         return;
+    }
+    if let Some(i) = a.rest.iter().position(|x| x == "--toolchains") && let Some(v) = a.rest.get(i + 1) {
+        unsafe { std::env::set_var("C06_TOOLCHAINS", v) };
     }
     let mut out = Out::new(&a.out);
     let req = match &a.replay {
